@@ -221,6 +221,180 @@ type shMutB struct {
 	A *shMutA `"b" @@? ]`
 }
 
+// an UNCAPTURED negation in the tag of a struct-typed field (it captures nothing, so the field's type does not matter to it)
+type shNegItem struct {
+	Name string     `@Ident`
+	Next *shNegItem `( ~";" "," @@ )?`
+}
+type shNegList struct {
+	Items []*shNegItem `( !";" @@ )*`
+}
+
+// a ladder of 40 productions, each referring to the next one in two leftmost alternatives (2^40 leftmost paths, 41 nodes)
+type shL0 struct {
+	One  *shL1   `(  @@`
+	Many []*shL1 ` | @@+ )`
+}
+type shL1 struct {
+	One  *shL2   `(  @@`
+	Many []*shL2 ` | @@+ )`
+}
+type shL2 struct {
+	One  *shL3   `(  @@`
+	Many []*shL3 ` | @@+ )`
+}
+type shL3 struct {
+	One  *shL4   `(  @@`
+	Many []*shL4 ` | @@+ )`
+}
+type shL4 struct {
+	One  *shL5   `(  @@`
+	Many []*shL5 ` | @@+ )`
+}
+type shL5 struct {
+	One  *shL6   `(  @@`
+	Many []*shL6 ` | @@+ )`
+}
+type shL6 struct {
+	One  *shL7   `(  @@`
+	Many []*shL7 ` | @@+ )`
+}
+type shL7 struct {
+	One  *shL8   `(  @@`
+	Many []*shL8 ` | @@+ )`
+}
+type shL8 struct {
+	One  *shL9   `(  @@`
+	Many []*shL9 ` | @@+ )`
+}
+type shL9 struct {
+	One  *shL10   `(  @@`
+	Many []*shL10 ` | @@+ )`
+}
+type shL10 struct {
+	One  *shL11   `(  @@`
+	Many []*shL11 ` | @@+ )`
+}
+type shL11 struct {
+	One  *shL12   `(  @@`
+	Many []*shL12 ` | @@+ )`
+}
+type shL12 struct {
+	One  *shL13   `(  @@`
+	Many []*shL13 ` | @@+ )`
+}
+type shL13 struct {
+	One  *shL14   `(  @@`
+	Many []*shL14 ` | @@+ )`
+}
+type shL14 struct {
+	One  *shL15   `(  @@`
+	Many []*shL15 ` | @@+ )`
+}
+type shL15 struct {
+	One  *shL16   `(  @@`
+	Many []*shL16 ` | @@+ )`
+}
+type shL16 struct {
+	One  *shL17   `(  @@`
+	Many []*shL17 ` | @@+ )`
+}
+type shL17 struct {
+	One  *shL18   `(  @@`
+	Many []*shL18 ` | @@+ )`
+}
+type shL18 struct {
+	One  *shL19   `(  @@`
+	Many []*shL19 ` | @@+ )`
+}
+type shL19 struct {
+	One  *shL20   `(  @@`
+	Many []*shL20 ` | @@+ )`
+}
+type shL20 struct {
+	One  *shL21   `(  @@`
+	Many []*shL21 ` | @@+ )`
+}
+type shL21 struct {
+	One  *shL22   `(  @@`
+	Many []*shL22 ` | @@+ )`
+}
+type shL22 struct {
+	One  *shL23   `(  @@`
+	Many []*shL23 ` | @@+ )`
+}
+type shL23 struct {
+	One  *shL24   `(  @@`
+	Many []*shL24 ` | @@+ )`
+}
+type shL24 struct {
+	One  *shL25   `(  @@`
+	Many []*shL25 ` | @@+ )`
+}
+type shL25 struct {
+	One  *shL26   `(  @@`
+	Many []*shL26 ` | @@+ )`
+}
+type shL26 struct {
+	One  *shL27   `(  @@`
+	Many []*shL27 ` | @@+ )`
+}
+type shL27 struct {
+	One  *shL28   `(  @@`
+	Many []*shL28 ` | @@+ )`
+}
+type shL28 struct {
+	One  *shL29   `(  @@`
+	Many []*shL29 ` | @@+ )`
+}
+type shL29 struct {
+	One  *shL30   `(  @@`
+	Many []*shL30 ` | @@+ )`
+}
+type shL30 struct {
+	One  *shL31   `(  @@`
+	Many []*shL31 ` | @@+ )`
+}
+type shL31 struct {
+	One  *shL32   `(  @@`
+	Many []*shL32 ` | @@+ )`
+}
+type shL32 struct {
+	One  *shL33   `(  @@`
+	Many []*shL33 ` | @@+ )`
+}
+type shL33 struct {
+	One  *shL34   `(  @@`
+	Many []*shL34 ` | @@+ )`
+}
+type shL34 struct {
+	One  *shL35   `(  @@`
+	Many []*shL35 ` | @@+ )`
+}
+type shL35 struct {
+	One  *shL36   `(  @@`
+	Many []*shL36 ` | @@+ )`
+}
+type shL36 struct {
+	One  *shL37   `(  @@`
+	Many []*shL37 ` | @@+ )`
+}
+type shL37 struct {
+	One  *shL38   `(  @@`
+	Many []*shL38 ` | @@+ )`
+}
+type shL38 struct {
+	One  *shL39   `(  @@`
+	Many []*shL39 ` | @@+ )`
+}
+type shL39 struct {
+	One  *shL40   `(  @@`
+	Many []*shL40 ` | @@+ )`
+}
+type shL40 struct {
+	Leaf string `@Ident`
+}
+
 type shIface struct {
 	I interface{ Foo() } `@@`
 }
@@ -602,6 +776,21 @@ func shapeRun(args []string) error {
 	})
 	run("recursive-stray-token", func() error { _, err := participle.Build[shRecStray](); return err })
 	run("mutual-recursive-stray-token", func() error { _, err := participle.Build[shMutA](); return err })
+	run("negation-in-struct-field-tag", func() error {
+		if _, err := participle.Build[shNegItem](); err != nil {
+			return err
+		}
+		p, err := participle.Build[shNegList]()
+		if err != nil {
+			return err
+		}
+		if v, err := p.ParseString("", ". a . b"); err != nil || len(v.Items) != 2 {
+			return fmt.Errorf("uncaptured negation before @@: %+v %v", v, err)
+		}
+		return nil
+	})
+	// a ladder of 40 productions, each referring to the next one in two leftmost alternatives (2^40 leftmost paths, 41 nodes)
+	run("ladder-40", func() error { _, err := participle.Build[shL0](); return err })
 	run("embedded-foreign-tag", func() error {
 		p, err := participle.Build[shEmbForeignTag]()
 		if err != nil {
